@@ -116,6 +116,25 @@ func c14Run(t *vk.T, proto string, n, th, rep int, env vk.Env) {
 				return
 			}
 		}
+		// optional serialise + restore of every party's material between derivations: key and chain key must survive it
+		if r.Intn(3) == 0 || (proto == "cmp" && step == 0) {
+			before := cur.Shares()
+			rs, rerr := cur.Snapshot()
+			if rerr != nil {
+				t.Violation(proto+"|restore-failed", "n=%d t=%d path=%s: %v", n, th, shape, rerr)
+				return
+			}
+			after := rs.Shares()
+			t.Obs("restores_between_derivations", 1)
+			for i := range before {
+				if i < len(after) && (!bytes.Equal(before[i].ChainKey, after[i].ChainKey) || !before[i].GroupKey.Equal(after[i].GroupKey)) {
+					t.Violation(proto+"|restore-changes-chain-key-or-key", "%s n=%d t=%d path=%s: party %q holds chain key %x / key %x before and %x / %x after serialise + restore", proto, n, th, shape, before[i].ID, before[i].ChainKey, before[i].GroupKey.Compress(), after[i].ChainKey, after[i].GroupKey.Compress())
+					return
+				}
+			}
+			cur = rs
+			shape += "S/"
+		}
 		shares = cur.Shares()
 		parent := shares[0].GroupKey
 		chain := shares[0].ChainKey
